@@ -357,3 +357,33 @@ impl Mux {
         }
     }
 }
+
+/// Encoded handshake for the `verif` facade.
+#[cfg(feature = "verif")]
+pub(crate) fn verif_encode_handshake(
+    accept: &[(CapabilityId, u32)],
+    connect: &[(CapabilityId, u32)],
+) -> Vec<u8> {
+    zksync_protobuf::encode(&Handshake {
+        accept_max_streams: accept.iter().copied().collect(),
+        connect_max_streams: connect.iter().copied().collect(),
+    })
+}
+
+/// Decodes a handshake and re-encodes it, for the `verif` facade.
+#[cfg(feature = "verif")]
+pub(crate) fn verif_decode_handshake(bytes: &[u8]) -> Result<(String, Vec<u8>), String> {
+    let h: Handshake = zksync_protobuf::decode(bytes).map_err(|e| format!("{e:#}"))?;
+    let mut a: Vec<_> = h.accept_max_streams.iter().collect();
+    a.sort();
+    let mut c: Vec<_> = h.connect_max_streams.iter().collect();
+    c.sort();
+    Ok((format!("accept={a:?} connect={c:?}"), zksync_protobuf::encode(&h)))
+}
+
+/// Descriptor of the handshake message, for the `verif` facade.
+#[cfg(feature = "verif")]
+pub(crate) fn verif_handshake_descriptor() -> prost_reflect::MessageDescriptor {
+    use prost_reflect::ReflectMessage as _;
+    <Handshake as zksync_protobuf::ProtoFmt>::Proto::default().descriptor()
+}
